@@ -2,9 +2,14 @@
    Proved (over the abstract match function of DESIGN.md §3.5): the spans that drive tokenize and
    replace_all are visited left to right and never overlap - each starts at or after the end of the
    previous one.  Offsets are indices into the list of code points by construction of the model
-   (a supplementary-plane character is one list element).  Partial: leftmost-ness and the
-   ordered-choice clause need E5 / E1. *)
-From RX Require Import Base.Prelude Model.Engine Model.Matcher Model.Api Proofs.ScanFacts Model.Op Proofs.EngineFacts Proofs.EngineCorollaries.
+   (a supplementary-plane character is one list element).  On the quantifier-free fragment the
+   ordered-choice clause itself: the match ReMatcher::matches selects is the specification's
+   selected match - leftmost start, and among the ends from there the first in the priority order
+   of the ordered-choice semantics R (earlier alternative first, the preference of an earlier term
+   dominating that of a later one).  Partial: quantifiers (greedy / reluctant preference), the
+   optimised search paths, and the resume position of the scan loops outside the abstract
+   good_step interface. *)
+From RX Require Import Base.Prelude Model.Engine Model.Matcher Model.Api Proofs.ScanFacts Model.Op Proofs.EngineFacts Proofs.EngineCorollaries Spec.Syntax Spec.Sem Model.Compiler Proofs.LowerFacts Proofs.FragmentSpec Proofs.OrderFacts.
 
 Fixpoint ordered (spans : list (nat * nat)) (from : nat) : Prop :=
   match spans with
@@ -43,5 +48,29 @@ Theorem C02_fragment_leftmost_first_partial :
       /\ q <= length input /\ get_pend s' 0 = Some q.
 Proof. intros prog input i s s' H1 H2. exact (fragment_leftmost_first prog input H1 H2 i s s'). Qed.
 
+(* E4 (ordered) + E5 on the quantifier-free fragment: the selected match is the specification's *)
+Theorem C02_fragment_selected_match_partial :
+  forall prog input fl o r s,
+    p_op prog = make_sequence o OEnd ->
+    plain (p_hasbackrefs prog) (p_maxparens prog) o ->
+    lowers (p_case prog) fl o r -> s_i fl = p_case prog -> s_m fl = p_multi prog ->
+    (p_hasbol prog = false /\ p_minlen prog = 0%N /\ p_prefix prog = None /\ p_icc prog = None /\ p_pre prog = []) ->
+    length (sb s) = length (eb s) ->
+    match matches prog input 0 s with
+    | MTrue s' => exists k q e, first_match fl input r (length input + 2) 0 = Some (k, q, e) /\ get_pend s' 0 = Some q
+    | MFalse _ => first_match fl input r (length input + 2) 0 = None
+    | MOut | MPanic _ => False
+    end.
+Proof. exact fragment_selected_match. Qed.
+
+(* the engine yields the end positions in the specification's priority order *)
+Theorem C02_fragment_order_partial :
+  forall input ci multi hb K fl, s_i fl = ci -> s_m fl = multi ->
+    forall o, plain hb K o -> forall r, lowers ci fl o r ->
+      forall p e, p <= length input -> map fst (R fl input r p e) = Rop input ci multi o p.
+Proof. exact lowers_order. Qed.
+
 Print Assumptions C02_spans_ordered_partial.
 Print Assumptions C02_fragment_leftmost_first_partial.
+Print Assumptions C02_fragment_selected_match_partial.
+Print Assumptions C02_fragment_order_partial.
